@@ -300,6 +300,27 @@ def run(ctx):
                     break
         if len(ctx.violations) > 5:
             break
+    # ---- with ELLIPSIS enabled (and every other leniency off) check_output itself must realise the wildcard relation:
+    # on texts the unconditional steps leave alone (no trailing blanks, no marker text, no colour codes)
+    strict_on = directive.RuntimeState({'ELLIPSIS': True, 'NORMALIZE_WHITESPACE': False, 'NORMALIZE_REPR': False,
+                                        'IGNORE_WHITESPACE': False, 'DONT_ACCEPT_BLANKLINE': True})
+    clean = [t for t in small if t == t.strip() and ' \n' not in t and '\t' not in t]
+    non = 0
+    for w in clean:
+        if not w:
+            continue
+        for g in clean:
+            non += 1
+            exp = (g == w) or spec_ellmatch(g, w)
+            if bool(checker.check_output(g, w, strict_on)) != exp:
+                ctx.violation('ellipsis-enabled-relation', {
+                    'what': "with ELLIPSIS on and every other leniency off check_output is %s, the wildcard relation says %s" % (not exp, exp),
+                    'got': g, 'want': w, 'theorem_or_correspondence': 'C06_ellipsis_iff lifted to check_output(+ELLIPSIS)'}, True)
+                break
+        if len([v for v in ctx.violations if v['kind'] == 'ellipsis-enabled-relation']) > 2:
+            break
+    ctx.evaluations += non
+    ctx.count('enabled_relation_pairs', non)
     ctx.evaluations += nmeta
     ctx.count('disabled_metamorphic_pairs', nmeta)
     ctx.add_rule('check_output under -ELLIPSIS: all pairs of length <= %d, renaming "." to a fresh letter must not change the verdict' % ml)
@@ -325,9 +346,22 @@ def replay(path):
     if got is None or want is None:
         print('replay file names no input:', d.get('theorem_or_correspondence'))
         return 1
-    iv = bool(checker._ellipsis_match(got, want))
-    sv = spec_ellmatch(got, want)
-    print('got=%r want=%r implementation=%r wildcard-relation=%r' % (got, want, iv, sv))
+    if d.get('kind') == 'ellipsis-enabled-relation':
+        from xdoctest import directive
+        rs = directive.RuntimeState({'ELLIPSIS': True, 'NORMALIZE_WHITESPACE': False, 'NORMALIZE_REPR': False,
+                                     'IGNORE_WHITESPACE': False, 'DONT_ACCEPT_BLANKLINE': True})
+        iv = bool(checker.check_output(got, want, rs))
+        sv = (got == want) or spec_ellmatch(got, want)
+    elif d.get('kind') in ('ellipsis-disabled-special', 'ellipsis-enabled-without-marker'):
+        from xdoctest import directive
+        off = directive.RuntimeState({'ELLIPSIS': False, 'NORMALIZE_WHITESPACE': False, 'NORMALIZE_REPR': False, 'IGNORE_WHITESPACE': False})
+        on = directive.RuntimeState({'ELLIPSIS': True, 'NORMALIZE_WHITESPACE': False, 'NORMALIZE_REPR': False, 'IGNORE_WHITESPACE': False})
+        iv = bool(checker.check_output(got, want, off))
+        sv = bool(checker.check_output(got.replace('.', 'c'), want.replace('.', 'c'), off)) if '...' in want else bool(checker.check_output(got, want, on))
+    else:
+        iv = bool(checker._ellipsis_match(got, want))
+        sv = spec_ellmatch(got, want)
+    print('got=%r want=%r implementation=%r expected=%r' % (got, want, iv, sv))
     if iv != sv:
         print('VIOLATION property=C06 replay=%s' % path)
         return 1
